@@ -333,6 +333,18 @@ class Gen:
         self.t('number', raw)
         return ('num', raw)
 
+    def key_exp(self, d):
+        """What stands between index brackets: any expression; now and then a quoted string that spells one of the program's own
+        identifiers (t["hp"] next to a variable hp: the string is a string, the identifier an identifier)."""
+        if self.p.names and self.rng.random() < 0.2:
+            nm = self.p.toks[self.rng.choice(self.p.names)][1]
+            if nm.isascii() and nm.isalnum() or nm.replace(b'_', b'').isalnum() and nm.isascii():
+                q = self.rng.choice((b'"', b"'"))
+                self.t('string', q + nm + q)
+                self.p.feats.add('str:index-key-spelling-an-identifier')
+                return [('str', nm)]
+        return self.exp(d)
+
     def string(self):
         raw, val = str_token(self.rng, self.p.feats, self.o, allow_multiline=not self.in_line)
         self.t('string', raw)
@@ -413,7 +425,7 @@ class Gen:
             r = rng.random()
             if r < 0.25:
                 self.sym(b'[')
-                ke = self.exp(d)
+                ke = self.key_exp(d)
                 self.sym(b']')
                 self.sym(b'=')
                 fields.append(('FieldExpKey', ke, self.exp(d)))
@@ -504,7 +516,7 @@ class Gen:
                 self.p.feats.add('VarAttribute')
             elif s == 'index':
                 self.sym(b'[')
-                ix = self.exp(max(d - 1, 0))
+                ix = self.key_exp(max(d - 1, 0))
                 self.sym(b']')
                 cur = [('VarIndex', cur, ix)]
                 self.p.feats.add('VarIndex')
